@@ -1,6 +1,8 @@
 package checks
 
 import (
+	"github.com/resgateio/resgate/server/rescache"
+	"encoding/json"
 	"fmt"
 	"strings"
 
@@ -103,6 +105,31 @@ func queryScenarios(tier string) []*mc.Scenario {
 			op("mutate+query2", 4, func(w *mc.World) {
 				w.Svc.Silent("test.q?n", func(r *mc.SvcRes) { r.M["v"] = `2` })
 				w.Svc.QueryEvent("test.q", "_QE_2")
+			}),
+		}}},
+		Menu: queryMenu,
+	})
+	// an alias is subscribed late: the normalised resource is loaded and has
+	// already followed a query event when a second query string that
+	// normalises to it is fetched; every holder must go on receiving the events
+	out = append(out, &mc.Scenario{
+		Name: "query/alias-late", Props: []string{"C13", "C03"}, Init: queryInit(map[string]string{"a": "n", "b": "n"}), Monitors: allMons(queryMon),
+		Conns: []mc.ConnSpec{
+			conn(latest, req("subscribe.test.q?n", 0), req("subscribe.test.q?b", 4)),
+			conn(latest, req("subscribe.test.q?a", 2)),
+		},
+		Threads: []mc.Thread{{Name: "svc", Ops: []mc.Op{
+			op("mutate+query", 1, func(w *mc.World) {
+				w.Svc.Silent("test.q?n", func(r *mc.SvcRes) { r.M["v"] = `1` })
+				w.Svc.QueryEvent("test.q", "_QE_1")
+			}),
+			op("mutate+query2", 3, func(w *mc.World) {
+				w.Svc.Silent("test.q?n", func(r *mc.SvcRes) { r.M["v"] = `2` })
+				w.Svc.QueryEvent("test.q", "_QE_2")
+			}),
+			op("mutate+query3", 5, func(w *mc.World) {
+				w.Svc.Silent("test.q?n", func(r *mc.SvcRes) { r.M["v"] = `3` })
+				w.Svc.QueryEvent("test.q", "_QE_3")
 			}),
 		}}},
 		Menu: queryMenu,
@@ -214,13 +241,35 @@ func thrScenarios(tier string) []*mc.Scenario {
 			tm := &thrState{}
 			sc.Monitors = func(w *mc.World) []mc.Monitor {
 				return allMons(func() mc.Monitor {
-					return &mc.ThrottleMon{Limit: n,
-						Governed:  func(r *mc.Req) bool { return tm.afterReset(w, r) },
+					return &mc.ThrottleMon{Limit: n, StrictSlots: true,
+						Governed:  func(r *mc.Req) bool { return tm.governed(w, r) },
 						Throttles: func(w *mc.World) int { return tm.resets(w) },
 					}
 				})(w)
 			}
 			out = append(out, sc)
+			if n == 1 {
+				// a connection may go away at any moment (its throttled re-check in flight)
+				d := *sc
+				d.Name = fmt.Sprintf("thr/reset-disc/N%d-M%d", n, fan)
+				d.Disconnects = true
+				d.Props = []string{"C19", "C11"} // a slot kept by a connection that is gone is a leftover of it
+				d.Bound = map[string]int{"quick": 1, "thorough": 2}
+				out = append(out, &d)
+				// reaccess events on the first resource before and after the reset:
+				// a deferred re-check keeps the throttle of the reset
+				e := *sc
+				e.Name = fmt.Sprintf("thr/reset-reaccess/N%d-M%d", n, fan)
+				e.Threads = []mc.Thread{{Name: "svc", Ops: []mc.Op{
+					{Name: "t1.reaccess", Phase: 1, When: clientsDone, Do: func(w *mc.World) { w.Svc.Reaccess(names[0]) }},
+					sc.Threads[0].Ops[0],
+					op("t1.reaccess2", 1, func(w *mc.World) { w.Svc.Reaccess(names[0]) }),
+				}}}
+				// every access request but the first of a (connection, resource) pair is a re-check: answered last
+				e.Slow = func(r *mc.Req) bool { return strings.HasPrefix(r.Subject, "access.") && !strings.HasSuffix(r.Name, "#0") }
+				e.Bound = map[string]int{"quick": 2, "thorough": 3}
+				out = append(out, &e)
+			}
 		}
 		// reference throttle: a tree with shared and cyclic children
 		sc := &mc.Scenario{
@@ -414,6 +463,92 @@ func (t *thrState) resets(w *mc.World) int {
 		}
 	}
 	return n
+}
+
+// governed reports whether r is a request that a system reset has to make
+// through its throttle: the first get request for a resource name after a
+// reset listing a matching resource pattern, or the first access request for
+// a (connection, resource) pair after a reset listing a matching access
+// pattern, the pair having had an access request before that reset (it is an
+// established subscription being re-checked, not a new subscribe). Requests
+// made for other reasons - a reaccess event or a token change after the
+// reset's own re-check has been issued - are not governed. This is an
+// inference from the traffic (used for the "outside-throttle" rule only; slot
+// accounting and the limit work on the exact Req.Throttled flag): it is only
+// drawn for resets sent while the gateway was internally quiet, and only for
+// the most recent... first request after such a reset.
+func (t *thrState) governed(w *mc.World, r *mc.Req) bool {
+	typ := ""
+	switch {
+	case strings.HasPrefix(r.Subject, "get."):
+		typ = "get."
+	case strings.HasPrefix(r.Subject, "access."):
+		typ = "access."
+	default:
+		return false
+	}
+	name := r.Subject[len(typ):]
+	var f struct {
+		CID string `json:"cid"`
+	}
+	json.Unmarshal(r.Payload, &f)
+	reqs := w.MQ.Requests()
+	ri := -1
+	for _, l := range w.MQ.Log() {
+		if l.Kind != "EVT" || l.Subject != "system.reset" {
+			continue
+		}
+		ri++
+		// a reset sent while earlier events were still waiting to be processed
+		// is not judged: requests made after it may belong to those events
+		if l.Time >= r.Time || ri >= len(w.Svc.ResetQuiet) || !w.Svc.ResetQuiet[ri] {
+			continue
+		}
+		var rs struct {
+			Resources []string `json:"resources"`
+			Access    []string `json:"access"`
+		}
+		json.Unmarshal([]byte(l.Payload), &rs)
+		pats := rs.Resources
+		if typ == "access." {
+			pats = rs.Access
+		}
+		match := false
+		for _, p := range pats {
+			if rp := rescache.ParseResourcePattern(p); rp.IsValid() && rp.Match(name) {
+				match = true
+			}
+		}
+		if !match {
+			continue
+		}
+		same := func(o *mc.Req) bool {
+			if o.Subject != r.Subject {
+				return false
+			}
+			var g struct {
+				CID string `json:"cid"`
+			}
+			json.Unmarshal(o.Payload, &g)
+			return g.CID == f.CID
+		}
+		before, between := false, false
+		for _, o := range reqs {
+			if o == r || !same(o) {
+				continue
+			}
+			if o.Time < l.Time {
+				before = true
+			}
+			if o.Time >= l.Time && o.Seq < r.Seq {
+				between = true
+			}
+		}
+		if before && !between {
+			return true
+		}
+	}
+	return false
 }
 
 func (t *thrState) afterReset(w *mc.World, r *mc.Req) bool {
